@@ -123,11 +123,12 @@ def skiptoLine (bit : Nat) (buf : Bytes) : String :=
 
 def step (st : State) (line : String) : State × String :=
   match words line with
+  -- the raw parser ops start a case: they leave a default header behind, like `new`
   | ["walk", h] => match parseHex h with
-    | some b => (st, walkLine b)
+    | some b => (defaultState, walkLine b)
     | none => (st, "bad-op")
   | ["skipto", n, h] => match n.toNat?, parseHex h with
-    | some bit, some b => (st, skiptoLine bit b)
+    | some bit, some b => (defaultState, skiptoLine bit b)
     | _, _ => (st, "bad-op")
   | ["tail"] => (st, "tail " ++ toHex tailBytes)
   | ["new"] => stepOut st "new" (defaultCtor M)
@@ -229,7 +230,7 @@ def checkLine (F : Frame) (m : FMap) (out : String) : String :=
 /-- state line of a header whose last present word announces table fields (the bytes after the first word's fields
     are fields to libtins, foreign to the setters): the fields of the first word must be laid out as the last-write map
     says and read back, the present-word chain must be unchanged; last clause: the foreign bytes are unchanged -/
-def checkLive (F : Frame) (m : FMap) (out : String) : String :=
+def checkLive (F : Frame) (oldPl : Option Bytes) (m : FMap) (out : String) : String :=
   let ow := words out
   if out.startsWith "throw" then s!"violates no-throw {out}" else
   match (kv ow "pl").bind parseHex with
@@ -246,8 +247,24 @@ def checkLive (F : Frame) (m : FMap) (out : String) : String :=
         | some e => s!"violates {e.1} expected={e.2.2} got={(kv ow e.1).getD "missing"}"
         | none =>
           if (m 1).isSome && kv ow "tr" != some (toString (trailerOfMap m)) then "violates tr"
-          else if F'.tail != F.tail then s!"violates later-namespace-bytes expected={toHex F.tail} got={toHex F'.tail}"
-          else "ok"
+          else if F'.tail == F.tail then "ok"
+          else
+            -- the bytes behind the first word's fields changed.  Two present words, the first announcing a radiotap
+            -- namespace: they are radiotap fields and had to be re-aligned — same values at the new aligned offsets,
+            -- same bytes behind them.  Anything else (vendor / unknown namespace): they had to stay as they were.
+            let radiotapLast := F.k == 1 && stdNsAfter F.hb == 0
+            match radiotapLast, oldPl with
+            | true, some old =>
+              let oldOff := old.length - F.tail.length + 4
+              let newOff := pl.length - F'.tail.length + 4
+              match decodeFields S old F.lastWord S.max 0 oldOff with
+              | some fk =>
+                let e := enc S fk oldOff
+                if F.tail.take e.length != e then "unspecified"
+                else if F'.tail == enc S fk newOff ++ F.tail.drop e.length then "ok"
+                else s!"violates later-namespace-fields expected={toHex (enc S fk newOff ++ F.tail.drop e.length)} got={toHex F'.tail}"
+              | none => "unspecified"
+            | _, _ => s!"violates later-namespace-bytes expected={toHex F.tail} got={toHex F'.tail}"
 
 /-- `ser` in a state whose last-write map is known and whose frame is inert -/
 def checkSer (o : OState) (m : FMap) (inner : Bytes) (out : String) : String :=
@@ -430,10 +447,10 @@ def specStep (st : OState) (line : String) : OState × String :=
   | [op, out] =>
     match words op with
     | ["walk", h] => match parseHex h with
-      | some b => (st, checkWalk b out)
+      | some b => ({ ws := some defaultWrites }, checkWalk b out)
       | none => (st, "unspecified")
     | ["skipto", n, h] => match n.toNat?, parseHex h with
-      | some bit, some b => (st, if bit < S.max then checkSkipto bit b out else "unspecified")
+      | some bit, some b => ({ ws := some defaultWrites }, if bit < S.max then checkSkipto bit b out else "unspecified")
       | _, _ => (st, "unspecified")
     | ["tail"] => (st, "ok")
     | ["new"] =>
@@ -451,11 +468,13 @@ def specStep (st : OState) (line : String) : OState × String :=
           let refused := match m 1 with
             | some v => byteAt v 0 / 16 % 2 == 1 && byteAt v 0 / 64 % 2 == 1
             | none => false
-          if refused then (bare, "unspecified")
+          if refused then (if out.startsWith "throw" then { ws := some defaultWrites } else bare, "unspecified")
           else
             let live := !decide (F.inert S)
-            ({ bare with ws := some fs, frame := F, live := live }, if live then checkLive F m out else checkLine F m out)
-        | none => (if out.startsWith "throw" then { bare with pl := none } else bare, "unspecified")
+            ({ bare with ws := some fs, frame := F, live := live }, if live then checkLive F (plOf out) m out else checkLine F m out)
+        | none =>
+          -- a refused parse leaves the default header the harness constructed before it
+          (if out.startsWith "throw" then { ws := some defaultWrites } else bare, "unspecified")
       | none => ({ ws := none }, "unspecified")
     | ["set", f, h] =>
       match st.ws, stdBit f, parseHex h with
@@ -465,7 +484,7 @@ def specStep (st : OState) (line : String) : OState × String :=
           let m := lastWrite FMap.empty ws'
           let st' := { st with ws := some ws', pl := plOf out }
           if st.live then
-            let r := checkLive st.frame m out
+            let r := checkLive st.frame st.pl m out
             -- the foreign bytes the next call starts from are the ones the object holds now
             let F' := match (plOf out).bind (decodeLayout S) with
               | some (F2, _) => { st.frame with tail := F2.tail }
@@ -482,7 +501,7 @@ def specStep (st : OState) (line : String) : OState × String :=
           let m := lastWrite FMap.empty ws'
           let st' := { st with ws := some ws', pl := plOf out }
           if st.live then
-            let r := checkLive st.frame m out
+            let r := checkLive st.frame st.pl m out
             let F' := match (plOf out).bind (decodeLayout S) with
               | some (F2, _) => { st.frame with tail := F2.tail }
               | none => st.frame
